@@ -16,7 +16,7 @@ SCHEMA_VALID_EDGE = [
     "math_markup", "link_mixed_format", "link_dangling", "nested_tables", "sdt_in_table",
     "vmerge_continue_val", "grid_before", "checkbox_onoff", "ddlist_empty", "ddlist_markup",
     "no_r_namespace", "start_zero", "markers_in_link", "comment_in_heading",
-    "adjacent_links_diff_anchor", "xml_comment_in_props", "nested_par_in_table", "num_dangling_abstract",
+    "adjacent_links_diff_anchor", "xml_comment_in_props", "nested_par_in_table", "num_dangling_abstract", "textbox_in_link",
 ]
 
 SPEC = docsweep.Spec(
